@@ -290,7 +290,34 @@ def holds(conds, fragment, value=True):
     return L.cond_holds(conds, fragment, value, contains=True)
 
 
+def _delimited(repo, rep):
+    """A computed value is written as name="value": the quote is never the
+    empty quote of an unquoted static value (shared with C02), and a static
+    attribute written without '=value' gets an '=' when a computed value
+    goes into it."""
+    from .c02 import _quote_never_empty
+    _quote_never_empty(repo, rep, rule="R07.4")
+    f = repo.func(PROG + "_create_attributes_nodes")
+    v = L.emission(repo, f.qualname).value
+    raw = "each(enumerate(prepared))[1][4]"
+    bad = []
+    n = 0
+    for w in A.walk(v):
+        if isinstance(w, A.NodeV) and w.kind == "Attribute" and \
+                len(w.args) > 3:
+            n += 1
+            t = A.show(w.args[3], limit=8)
+            if t == raw:
+                bad.append(t)
+    rep.check(n >= 1 and not bad, "R07.4", f.qualname, "a value-less static "
+              "attribute that receives a computed value is written with "
+              "'=' (and quotes)", construct="valueless-gets-eq",
+              where=L.where(f), detail="eq is passed on as written: %s"
+              % bad[:1])
+
+
 def _choice(repo, rep):
+    _delimited(repo, rep)
     f = repo.func(PROG + "_create_attributes_nodes")
     res = L.emission(repo, f.qualname)
     site = f.qualname
